@@ -67,6 +67,7 @@ class Ctx:
         self.assumptions = []
         self.notes = []
         self.known = load_known(prop)
+        self.known_any = load_known(None)
         self._gobuilt = {}
 
     # ------------------------------------------------------------------ misc
@@ -319,8 +320,10 @@ class Ctx:
     # -------------------------------------------------------------- verdicts
     def violation(self, key, desc, case):
         """A real-code behaviour the specification rejects."""
-        if key in self.known or ("+" in key and all(k in self.known for k in key.split("+"))):
-            # a combination of recorded findings (both deviations needed to explain the behaviour) is recorded too
+        if key in self.known or ("+" in key and any(k in self.known for k in key.split("+"))
+                                 and all(k in self.known or k in self.known_any for k in key.split("+"))):
+            # a combination of recorded findings (several deviations needed to explain the behaviour) is recorded
+            # too: the part that concerns this property must be recorded for it, the rest for some property
             if key not in self.known_hits:
                 self.known_hits[key] = desc
             return False
@@ -380,7 +383,7 @@ def load_known(prop):
     for line in open(p):
         line = line.strip()
         m = re.match(r"known:\s+property=(\S+)\s+key=(\S+)\s*(.*)$", line)
-        if m and m.group(1) == prop:
+        if m and (prop is None or m.group(1) == prop):
             res[m.group(2)] = m.group(3)
     return res
 
